@@ -1,5 +1,5 @@
 (* Tie between the parser's limit guards (translated on every run) and the model. *)
-From Coq Require Import ZArith Bool Lia List String.
+From Coq Require Import ZArith Bool Lia List String ZifyBool.
 From SV Require Import Base.Bytes Parser.Protocol Resolve.Op Parser.Accept Gen.Kernels GenTie.Window GenTie.Table.
 Import ListNotations.
 Local Open Scope Z_scope.
@@ -11,19 +11,19 @@ Definition pproto_of (p : proto) (algs : list N) (sigs keys patches : list bytes
 
 Theorem parser_opSizeGuard_tie p len : small (MaxOperationSize p) ->
   gen_parser_opSizeGuard p len = (len >? MaxOperationSize p).
-Proof. intros H. unfold gen_parser_opSizeGuard, to_int. rewrite small_int64 by exact H. reflexivity. Qed.
+Proof. intros H. unfold gen_parser_opSizeGuard. tie. Qed.
 
 Theorem parser_hashLenGuard_tie p len : small (MaxOperationHashLength p) ->
   gen_parser_hashLenGuard p len = (len >? MaxOperationHashLength p).
-Proof. intros H. unfold gen_parser_hashLenGuard, to_int. rewrite small_int64 by exact H. reflexivity. Qed.
+Proof. intros H. unfold gen_parser_hashLenGuard. tie. Qed.
 
 Theorem parser_deltaSizeGuard_tie p len : small (MaxDeltaSize p) ->
   gen_parser_deltaSizeGuard p len = (len >? MaxDeltaSize p).
-Proof. intros H. unfold gen_parser_deltaSizeGuard, to_int. rewrite small_int64 by exact H. reflexivity. Qed.
+Proof. intros H. unfold gen_parser_deltaSizeGuard. tie. Qed.
 
 Theorem parser_nonceGuard_tie p len : small (NonceSize p) ->
   gen_parser_nonceGuard p len = negb (len =? NonceSize p).
-Proof. intros H. unfold gen_parser_nonceGuard, to_int. rewrite small_int64 by exact H. reflexivity. Qed.
+Proof. intros H. unfold gen_parser_nonceGuard. tie. Qed.
 
 (* each limit is governed by its own protocol parameter and no other *)
 Theorem parser_param_table :
